@@ -9,6 +9,7 @@ import json
 import os
 import re
 import shutil
+import signal
 import subprocess
 import sys
 import tempfile
@@ -104,11 +105,25 @@ def run(cmd, cwd=None, timeout=None, check=True, capture=True, extra_env=None):
     e = env()
     if extra_env:
         e.update(extra_env)
+    # (own session: on a time-out the whole process group goes - tlapm's back-end provers and TLC's workers used to survive their parent)
+    proc = subprocess.Popen(cmd, cwd=cwd, env=e, stdout=subprocess.PIPE if capture else None,
+                            stderr=subprocess.STDOUT if capture else None, text=True, start_new_session=True)
     try:
-        p = subprocess.run(cmd, cwd=cwd, env=e, timeout=timeout, stdout=subprocess.PIPE if capture else None,
-                           stderr=subprocess.STDOUT if capture else None, text=True)
+        out, _ = proc.communicate(timeout=timeout)
     except subprocess.TimeoutExpired:
+        try:
+            os.killpg(proc.pid, signal.SIGKILL)
+        except OSError:
+            pass
+        proc.wait()
         raise Inconclusive("timeout: %s" % " ".join(cmd[:4]))
+    except BaseException:
+        try:
+            os.killpg(proc.pid, signal.SIGKILL)
+        except OSError:
+            pass
+        raise
+    p = subprocess.CompletedProcess(cmd, proc.returncode, out, None)
     if check and p.returncode != 0:
         raise Inconclusive("command failed (%d): %s\n%s" % (p.returncode, " ".join(cmd), (p.stdout or "")[-3000:]))
     return p
